@@ -3,15 +3,14 @@ Model of `IceConn::receive` address/latching logic and the latch API
 (`src/transports/ice/conn.rs`).  Core Lean only (no Mathlib): this file is
 linked into the `rtcdrv` executable.
 
-The model follows the code statement by statement; in particular the value
-`current_remote` is read ONCE at the top of `receive` and the later writes to
-`remote_addr` are guarded by comparisons against that stale copy, exactly as
-the Rust does.
+The model follows the code statement by statement (one atomic step per call; the interleaving
+of a call with a concurrent `receive` is `RtcModel.LatchRace`).
 
 Round 2: the model follows three `fix:` commits of the latch agent —
 (1) the unconditional adoption at the top of `receive` is skipped while latching is enabled,
 (2) rule 2 is evaluated before rule 3 (the documented order),
-(3) `set_expected_ssrc` with a changed value restarts the probation window.
+(3) `set_expected_ssrc` with a changed value restarts the probation window,
+(4) latch state changes happen under the probation mutex and `receive` re-reads the destination there.
 Byte offsets, the marker mask and the counter widths are generated constants.
 -/
 import RtcModel.Generated.Consts
@@ -193,7 +192,9 @@ def moveTo (s1 : St) (cur addr : Addr) : St :=
 def commitTo (s2 : St) (addr w : Addr) : St :=
   if w ≠ addr then { s2 with remote := w } else s2
 
-/-- the RTP arm (`!rtp_latched && len >= 12`), `cur` is the stale `current_remote` copy -/
+/-- the RTP arm (`!rtp_latched && len >= 12`); `cur` is `current_remote`, which since the
+lock-discipline fix is re-read under the probation mutex (it used to be the copy taken at the
+top of `receive`, before the adoption) -/
 def rtpLatch (s1 : St) (cur addr : Addr) (ssrc seq ts : Nat) (marker : Bool) : St :=
   if s1.latchOn ∧ ¬ s1.rtpLatched ∧ (s1.expected = 0 ∨ ssrc = s1.expected) then
     match s1.prob with
@@ -212,7 +213,7 @@ def receive (s : St) (addr : Addr) (k : Kind) : St :=
   match k with
   | .empty => s
   | .rtcp => rtcpLearn (adopt s addr) addr
-  | .rtp ssrc seq ts marker => rtpLatch (adopt s addr) s.remote addr ssrc seq ts marker
+  | .rtp ssrc seq ts marker => rtpLatch (adopt s addr) (adopt s addr).remote addr ssrc seq ts marker
   | _ => adopt s addr
 
 def freshProb (s : St) : Option Prob :=
